@@ -264,3 +264,34 @@ def edge_dominates(func, bid, k, ev, entry=None):
     # reachable at all through the edge?
     succ = func.blocks[bid].succs[k]
     return succ is not None and target in reachable_blocks(func, succ)
+
+
+def natural_loops(func, entry=None):
+    """List of (header, body-set) for every back edge t->h with h dominating t."""
+    dom = dominators(func, entry)
+    loops = []
+    for b in func.blocks.values():
+        if b.id not in dom:
+            continue
+        for s in b.succs:
+            if s is not None and s in dom.get(b.id, ()):
+                body = {s, b.id}
+                work = [b.id]
+                while work:
+                    x = work.pop()
+                    if x == s:
+                        continue
+                    for p in func.blocks[x].preds:
+                        if p not in body and p in dom:
+                            body.add(p)
+                            work.append(p)
+                loops.append((s, body))
+    return loops
+
+
+def innermost_loop(func, block_id, loops=None):
+    loops = natural_loops(func) if loops is None else loops
+    cands = [(h, body) for h, body in loops if block_id in body]
+    if not cands:
+        return None
+    return min(cands, key=lambda x: len(x[1]))
